@@ -231,6 +231,9 @@ func (h *Hist) genProposal(ctx sdk.Context) {
 		h.submit(ctx, "params-erc20", &erc20types.MsgUpdateParams{Authority: h.govAddr, Params: p}, false)
 	case 7: // csr params (CSR stays enabled: see suite notes)
 		p := a.CSRKeeper.GetParams(ctx)
+		if !p.EnableCsr {
+			p.EnableCsr = h.r.Chance(3, 4) // a chain that started with csr disabled gets it enabled by governance
+		}
 		p.CsrShares = sdkmath.LegacyNewDecWithPrec(int64(h.r.Intn(101)), 2)
 		if h.r.Chance(1, 10) {
 			p.CsrShares = sdkmath.LegacyNewDecWithPrec(150, 2) // invalid
